@@ -27,7 +27,14 @@ What is a theorem here (Props/C20*.lean):
    the caller's performed parts as they are for every PerformanceLike form (`argforms` / `perfforms` cases);
    Performance(...) / sanitize_track_numbers reaches its fixed point in one pass (C20Perf.lean);
  * the dispatch tables and literals those models copy are REGENERATED from the live source (translate_c20.py ->
-   Gen/C20Tables.lean) and proved equal to the models for every argument (C20Gen.lean);
+   Gen/C20Tables.lean) and proved equal to the models for every argument (C20Gen.lean): the heads of
+   save_performance_midi, Performance.__init__, transpose, save_score_midi (+ every later use of `parts`), save_musicxml,
+   Score.__init__, ensure_notearray, and how slice_notearray_by_time binds / writes its result; composed theorems
+   (`live_exporters_agree`, `live_slice_frame`) state the property for the tables the live source contains;
+ * ARRAY VIEWS THAT COPY (C20Array.lean over Model/ArrayView.lean): slice_notearray_by_time over a heap of numpy buffers —
+   every existing buffer (the argument's) is left as it was, the result is a new buffer (no shared memory), holds the
+   active rows (clipped), in-place edits of the result do not reach the argument, a second call gives an equal new
+   array (`slice` cases);
  * the memo behind the read-only property number_of_staves (C20Cache.lean): a read never changes the objects and no
    result depends on the memo, for all histories of add / remove / read (`staves` cases).
 The rest of the non-mutation half (the exporters' and analysers' bodies) is decided by frame checks on generated inputs —
@@ -49,7 +56,7 @@ PROPERTY = "C20"
 DRIVER = "drv_c20"
 PROPS = ["PartituraModel.Props.C20", "PartituraModel.Props.C20Refs", "PartituraModel.Props.C20Forms",
          "PartituraModel.Props.C20Seq", "PartituraModel.Props.C20Gen", "PartituraModel.Props.C20Cache",
-         "PartituraModel.Props.C20Perf"]
+         "PartituraModel.Props.C20Perf", "PartituraModel.Props.C20Array"]
 TRUSTED = [
     "Python iterator protocol (iter()/next() dispatch to __iter__/__next__; reversed() and `in` fall back to "
     "__len__/__getitem__ and __iter__ for classes without __reversed__/__contains__), list indexing and slicing",
@@ -57,12 +64,19 @@ TRUSTED = [
     "copy.deepcopy allocates a new object for every note it reaches (Model/ArgForms.lean `copyParts`; parts do not share notes)",
     "isinstance / collections.abc.Iterable as interpreted by Model/ArgFormsGen.lean (a Performance is iterable)",
     "sorted(set(pairs)) of sanitize_track_numbers = strictly sorted list without duplicates (Model/ArgForms.lean `sortedSet`)",
+    "numpy: np.empty and indexing with an integer array allocate a new buffer; `arr[idx] = v` and `arr[field] = v` write into "
+    "the buffer of `arr` and nowhere else; a float assigned to an integer field truncates toward zero; sorted(set of "
+    "indices) = ascending indices, each once (Model/ArrayView.lean)",
+    "harness/translate_c20.py reads the if/elif chains and bindings of the live source by their AST shape (an unknown shape "
+    "becomes the token `?` and the theorems of Props/C20Gen.lean stop building)",
 ]
 PARTIAL = ["non-mutation and repeatability of the BODIES of the exporters and analysers (what save_musicxml / save_score_midi / "
            "save_match / the note-array builders / the estimators do with the parts they reach) are established by frame "
            "checks (deep fingerprint before/after, results of repeated calls compared) on generated inputs, not by a theorem; "
            "proved are the argument normalisation of every form, transpose over the heap, the copies of an unfolding, the "
-           "number_of_staves memo and the container protocol",
+           "number_of_staves memo, slice_notearray_by_time over the buffer heap and the container protocol",
+           "of the array views only slice_notearray_by_time is modelled; note_array_from_note_list and compute_pianoroll "
+           "(which build new arrays from Python objects) are frame-checked, not proved",
            "slice ASSIGNMENT (c[a:b] = [...]) changes the number of parts and is not modelled"]
 RULE = ("(c) random graphs of real Note/GraceNote/Slur/Tuplet objects copied with copy() + replace_refs(o_map) and compared, "
         "attribute by attribute and list identity by list identity, with the Lean heap model; (d) in-place operations on "
@@ -79,14 +93,19 @@ RULE = ("(c) random graphs of real Note/GraceNote/Slur/Tuplet objects copied wit
         "(nesting depth 0-3) and random track entries (missing keys, -1, gaps) in every form, compared with "
         "Model/ArgForms.lean (iter_parts, Score(x), parts visited by save_musicxml / save_score_midi / ensure_notearray, "
         "transpose over the note heap, save_performance_midi, Performance(...) + num_tracks); (g) staves: histories of "
-        "add/remove/number_of_staves; distinct = distinct request text / (seed, form)")
+        "add/remove/number_of_staves; (h) slice: note arrays of 0-6 rows (times in quarter-beat ticks) with windows that "
+        "cover every row / none / the middle / touch an onset or offset / are inverted, with and without clipping, "
+        "compared with Model/ArrayView.lean (argument afterwards, result rows, shared memory); "
+        "distinct = distinct request text / (seed, form)")
 LEVEL_TEXT = ("Lean 4 theorems over all inputs: container protocol incl. reversed / in / slices / assignment between next "
               "calls (every handle sees every position once, for every interleaving); copies made by unfolding share no "
               "list with the original; for every ScoreLike form the exporters, Score(x) and ensure_notearray reach exactly "
               "the parts iter_parts reaches; transpose leaves every note cell of its argument as it was, for every form, "
               "and is repeatable; save_performance_midi binds every PerformanceLike form to the caller's own parts "
-              "(dispatch tables regenerated from the live source and proved equal to the model); the number_of_staves memo "
-              "never changes objects and no result depends on it. All tied to the code by differential runs. "
+              "(dispatch tables of ALL these heads regenerated from the live source and proved equal to the model); the "
+              "number_of_staves memo never changes objects and no result depends on it; slice_notearray_by_time over a heap of "
+              "numpy buffers writes only into a newly allocated buffer (argument untouched, no shared memory, repeatable). "
+              "All tied to the code by differential runs. "
               "Non-mutation/repeatability of the exporters' and analysers' bodies: frame checks only (every entry point x "
               "every documented argument form), not proved.")
 
@@ -164,6 +183,9 @@ def cases(rng, tier):
     # the memo behind the read-only property number_of_staves: histories of add / remove / read (Model/StavesCache.lean)
     for _ in range(100 if tier == "quick" else 3000):
         yield F.staves_desc(rng)
+    # array views that copy: slice_notearray_by_time against Model/ArrayView.lean (heap of buffers)
+    for _ in range(150 if tier == "quick" else 5000):
+        yield F.slice_desc(rng)
     # ARGUMENT FORMS: every form of the documented ScoreLike / PerformanceLike unions (read from the live source),
     # every registered read-only entry point on each; each form at least once per run, in a random order
     forms, _missing = F.form_table()
@@ -287,6 +309,9 @@ def evaluate(d):
     elif k == "staves":
         ev.requests, ev.impl, ev.oracle = F.observe_staves(d)
         ev.key = "staves:" + ev.requests[0]
+    elif k == "slice":
+        ev.requests, ev.impl, ev.oracle = F.observe_slice(d)
+        ev.key = "slice:" + ev.requests[0]
     elif k == "perfforms":
         ev.requests, ev.impl, ev.oracle = F.observe_perfforms(d)
         ev.key = "perfforms:" + ev.requests[0]
@@ -1011,6 +1036,8 @@ def edit_results(obj, d, ev, fp):
 def finding_key(d, f):
     if d["k"] == "frame":
         return "frame:" + f.split(" ")[0] + ":" + ("modified" if "modified" in f else "repeat")
+    if d["k"] == "slice":
+        return "slice:" + ("modified" if "modified its argument" in f else "view" if "view of its argument" in f else "repeat")
     return d["k"] + ":" + f.split(":")[0]
 
 
@@ -1042,7 +1069,7 @@ def distribution(descs, results):
     tree_depth = Counter()
     def depth(x):
         return 0 if x[0] == "p" else 1 + max([depth(c_) for c_ in x[1]] + [0])
-    ops3, staves_ops, perf_tracks = Counter(), Counter(), Counter()
+    ops3, staves_ops, perf_tracks, slice_shapes = Counter(), Counter(), Counter(), Counter()
     for d in descs:
         if d["k"] == "argforms":
             tree_depth["%s/depth%d" % (d["form"], max([depth(x) for x in d["tree"]] + [0]))] += 1
@@ -1052,6 +1079,13 @@ def distribution(descs, results):
         elif d["k"] == "staves":
             for op in d["ops"]:
                 staves_ops[op[0]] += 1
+        elif d["k"] == "slice":
+            s_, e_ = d["s"], d["e"]
+            act = [r for r in d["rows"] if (s_ <= r[0] < e_) or (r[0] < s_ < r[0] + r[1])]
+            early = [r for r in act if r[0] < s_]
+            slice_shapes["%s/%s/%s/%s" % (d["shape"], "clip" if d["clip"] else "noclip",
+                                          "empty" if not act else ("all" if len(act) == len(d["rows"]) else "some"),
+                                          "early" if early else "noearly")] += 1
         elif d["k"] == "perfforms":
             canon = all(t == 0 for pp in d["pps"] for t in pp["notes"])
             perf_tracks["%s/%s/%s" % (d["form"], "ensure" if d["ensure"] else "keep", "canonical" if canon else "noncanonical")] += 1
@@ -1059,4 +1093,4 @@ def distribution(descs, results):
     return {"by_kind": dict(c), "entry_points_that_raised": dict(raised), "entry_point_x_form_checked": dict(accepted),
             "registry": registry, "forms_generated": ["%s:%s" % f for f in forms], "forms_without_builder": missing,
             "argforms_shapes": dict(tree_depth), "proto3_ops": dict(ops3), "staves_ops": dict(staves_ops),
-            "perfforms_shapes": dict(perf_tracks)}
+            "perfforms_shapes": dict(perf_tracks), "slice_shapes": dict(slice_shapes)}
